@@ -35,7 +35,7 @@ pub static DEF: CheckDef = CheckDef {
 fn families(t: Tier) -> Vec<(&'static str, u64)> {
     vec![
         ("unary", t.n(12_000, 600_000)),
-        ("binary", t.n(14_400, 14_400 * 6)),
+        ("binary", t.n(14_400 * 5, 14_400 * 10)),
         ("matmul", t.n(20_000, 1_000_000)),
         ("conv", t.n(10_000, 500_000)),
         ("large", t.n(600, 100_000)),
@@ -148,12 +148,8 @@ pub fn gen_binary(r: &mut Rng, k: u64) -> Option<OpCase> {
     let db = shapes[(pair % 120) as usize].clone();
     bshape(&da, &db)?;
     let ops = [OpKind::Add, OpKind::Mul, OpKind::Sub, OpKind::Div, OpKind::Axpy(-2.0)];
-    // add and mul on every pair over rounds 0/1; sub/div/axpy rotate
-    let kind = match round % 6 {
-        0 => ops[(pair % 2) as usize].clone(),
-        1 => ops[((pair + 1) % 2) as usize].clone(),
-        x => ops[2 + ((pair + x) % 3) as usize].clone(),
-    };
+    // five rounds put every operation on every pair (quick and thorough alike)
+    let kind = ops[((pair + round) % 5) as usize].clone();
     let va = rand_ints(r, numel(&da), -4, 4);
     let vb = if kind == OpKind::Div { if r.chance(1, 2) { rand_pos(r, numel(&db)) } else { rand_quarters_nz(r, numel(&db)) } } else { rand_ints(r, numel(&db), -4, 4) };
     let mask = mask_of(2, r.below(3));
@@ -165,7 +161,11 @@ pub fn gen_binary(r: &mut Rng, k: u64) -> Option<OpCase> {
 pub fn lead_pattern(r: &mut Rng, idx: usize) -> (Vec<usize>, Vec<usize>, &'static str) {
     let l1 = r.range(2, 3);
     let l2 = r.range(2, 3);
-    match idx % 10 {
+    match idx % 14 {
+        10 => (vec![l1, l2], vec![], "a2-only"),
+        11 => (vec![], vec![l1, l2], "b2-only"),
+        12 => (vec![l1, l2], vec![1, 1], "unit-b2"),
+        13 => (vec![l1, 1], vec![l1, l2], "part-unit-a"),
         0 => (vec![], vec![], "none"),
         1 => (vec![l1], vec![l1], "equal1"),
         2 => (vec![l1], vec![], "a-only"),
@@ -181,9 +181,9 @@ pub fn lead_pattern(r: &mut Rng, idx: usize) -> (Vec<usize>, Vec<usize>, &'stati
 
 pub fn gen_matmul(r: &mut Rng, k: u64) -> OpCase {
     let mut k = k as usize;
-    let form = k % 12;
-    k /= 12;
-    if form >= 10 {
+    let form = k % 16;
+    k /= 16;
+    if form >= 14 {
         return gen_matmul_rank1(r, k);
     }
     let (la, lb, lname) = lead_pattern(r, form);
@@ -232,7 +232,11 @@ pub fn gen_matmul(r: &mut Rng, k: u64) -> OpCase {
 pub fn gen_matmul_rank1(r: &mut Rng, k: usize) -> OpCase {
     let kk = r.range(1, 3);
     let n = r.range(1, 3);
-    let lead: Vec<usize> = if r.chance(1, 3) { vec![r.range(2, 3)] } else { vec![] };
+    let lead: Vec<usize> = match r.below(6) {
+        0 | 1 => vec![r.range(2, 3)],
+        2 => vec![2, r.range(2, 3)],
+        _ => vec![],
+    };
     let (kind, dims, cell): (OpKind, Vec<Vec<usize>>, String) = match k % 6 {
         // dot product
         0 => (OpKind::Matmul { ta: false, tb: false, c: r.chance(1, 2) }, vec![vec![kk], vec![kk], vec![1]], "matmul|dot".into()),
